@@ -74,9 +74,9 @@ def spaces(tier, seed):
         al = S.alphabet(6)
         return [ProductSpace('W(3,7)-edges', S.word_dims(['a', 'd', 'n'], 7) + [[()]], evaluate,
                              describe='7-letter words (bursts with edges): mirror also after recompute_edges'),
-                ProductSpace('W(6,5)xopts', S.word_dims(al, 5) + [OPTS_Q[:4]], evaluate, bounds={'letters': al}),
-                ProductSpace('W(5,5)xopts', S.word_dims(S.alphabet(5), 5) + [OPTS_Q[4:]], evaluate,
-                             bounds={'letters': S.alphabet(5)})]
+                ProductSpace('W(6,5)xopts', S.word_dims(al, 5) + [OPTS_Q[:2]], evaluate, bounds={'letters': al}),
+                ProductSpace('W(4,5)xopts', S.word_dims(S.alphabet(4), 5) + [OPTS_Q[2:]], evaluate,
+                             bounds={'letters': S.alphabet(4), 'option_sets': len(OPTS_Q[2:])})]
     al = S.alphabet(8, seed, extra=2)
     devs = [d for d in S.option_sets(2, [k for k in S.DEVIATIONS if k not in ('trough', 'nosamp', 'neg')])]
     return [ProductSpace('W(4,8)-edges', S.word_dims(['a', 'd', 'n', 'b'], 8) + [[(), ('thr1',)]], evaluate),
